@@ -10,7 +10,7 @@ CLAIMED = {
  "C09": {
   "technique": "TLA+ model checking (TLC: safety exhaustive, liveness under fairness) of spec/TaskQueue.tla; TLC-generated behaviours replayed on the real TaskQueue; recorded traces validated by TLC against TaskQueueTrace.tla",
   "level": "model_checking",
-  "text": "TLC explores every interleaving of schedule/claim/finish/reschedule/follow-up/crash/start-up over 4-5 task names and 4 time levels (safety: earliest-first, soonest-kept, nothing lost, nothing stranded in 'running' after start-up, recurring tasks queued) and checks under fairness that every queued task eventually runs and recurring tasks run again and again. In the CA histories (Krill.tla traces with held tasks) TLC requires in every state that the recurring synchronisation of every hosted CA with each of its parents is somewhere in the real queue - due, scheduled for later or running - whatever the outcome of its last run (C09_ParentSyncKept), and that what is served equals the repository content at every settle point. The same spec is bound to the code: TLC-generated behaviours are executed on the real TaskQueue (disk and memory back-end) and each recorded trace must be a behaviour of the spec, with every invariant evaluated at every step.",
+  "text": "TLC explores every interleaving of schedule/claim/finish/reschedule/follow-up/crash/start-up over 4-5 task names and 4 time levels (safety: earliest-first, soonest-kept, nothing lost, nothing stranded in 'running' after start-up, recurring tasks queued) and checks under fairness that every queued task eventually runs and recurring tasks run again and again. In the CA histories (Krill.tla traces with held tasks) TLC requires in every state that the recurring synchronisation of every hosted CA with each of its parents is somewhere in the real queue - due, scheduled for later or running - whatever the outcome of its last run (C09_ParentSyncKept), and that what is served equals the repository content at every settle point. What a queued task carries is bound as a step property of the traces: a scheduling call that writes an entry leaves an entry of that name with the payload of this call, also when an earlier time is kept (every call of the harness carries a payload of its own). The same spec is bound to the code: TLC-generated behaviours are executed on the real TaskQueue (disk and memory back-end) and each recorded trace must be a behaviour of the spec, with every invariant evaluated at every step.",
   "note": "Trusted: TLC; the projection of storage keys '<millis>-<name>' onto abstract time levels; the harness replicates the two lines of run_scheduler. Not covered here: the follow-up table of mq.rs (bound by the CA traces of C01-C04), crash points inside a queue operation (C08).",
   "ref": "§6 C09, §4.2", "engines": ["TLC", "krillverif"]},
 }
